@@ -16,7 +16,10 @@ import numpy as np
 PRESSURE_UNITS = {'Pa': 1.0, 'bar': 1e5, 'kPa': 1000.0, 'mbar': 100.0,
                   # same letters, other prefix: mPa is not MPa
                   'MPa': 1e6, 'mPa': 1e-3, 'hPa': 100.0, 'uPa': 1e-6,
-                  'Torr': 101325.0 / 760.0}
+                  'Torr': 101325.0 / 760.0,
+                  # units only the CDS format of astropy knows (the readers
+                  # fall back to it)
+                  'atm': 101325.0, 'mmHg': 133.322387415}
 
 
 def distinct_ints(rs, lo, hi, n):
